@@ -51,7 +51,7 @@ def session(draw):
         callers.insert(draw(st.integers(0, len(callers))), {'key': ['change', 'm:target'], 'delay': draw(st.sampled_from([0, 0, 0.5])), 'bad': 'unencodable'})
     plan = []
     for _ in range(draw(st.integers(0, 8))):
-        kind = draw(st.sampled_from(['reply', 'reply', 'reply', 'error', 'update', 'stray', 'sleep', 'sleep'] + (['ignore'] * 3 if lossy else [])))
+        kind = draw(st.sampled_from(['reply', 'reply', 'reply', 'reply-split', 'error', 'update', 'stray', 'sleep', 'sleep'] + (['ignore'] * 3 if lossy else [])))
         item = {'do': kind, 'k': draw(st.integers(0, 3))}
         if kind == 'sleep':
             item['dt'] = draw(st.sampled_from([0.1, 1.5, 6.0, 12.0]))
@@ -111,6 +111,9 @@ class Peer:
             self.handle(line.decode())
 
     def push(self, text):
+        if getattr(self, 'splitting', False):
+            self.deferred.append(text)      # (a line being sent in two pieces is not interrupted by other lines)
+            return
         if not self.silent and not self.closed:
             self.sock.push(text.encode() + b'\n')
 
@@ -179,12 +182,28 @@ class World:
         self.peers.append(p)
         return p
 
-    def answer(self, req, error=False):
+    def answer(self, req, error=False, split=False):
         peer = req['peer']
         if req['answered'] or peer.closed or peer.silent:
             return
         n = req['nonce']
         req['ta'] = dsched.v_time()
+        if split and req['action'] in REPLY:
+            # the reply arrives in two pieces with a pause longer than one read slice of the connection (slow link, busy node)
+            text = f'{REPLY[req["action"]]} {req["ident"]} [{n}, {{"t": 2}}]\n'.encode()
+            req['answered'] = 'reply'
+            if req in self.outstanding:
+                self.outstanding.remove(req)
+            peer.splitting, peer.deferred = True, []
+            peer.sock.push(text[:len(text) // 2])
+            dsched.v_sleep(1.6)
+            if not peer.closed and not peer.silent:
+                peer.sock.push(text[len(text) // 2:])
+            peer.splitting = False
+            for t_ in peer.deferred:
+                peer.push(t_)
+            req['ta'] = dsched.v_time()
+            return
         if error:
             peer.push(f'error_{req["action"]} {req["ident"]} ["HardwareError", "nonce {n}", {{}}]')
             req['answered'] = 'error'
@@ -246,7 +265,7 @@ class World:
                     s.block(('req', self), 2.0)
                 if self.outstanding:
                     req = self.outstanding[item['k'] % len(self.outstanding)]
-                    self.answer(req, error=(do == 'error'))
+                    self.answer(req, error=(do == 'error'), split=(do == 'reply-split'))
         self.plan_done = True
         for req in list(self.outstanding):
             self.answer(req)
@@ -380,7 +399,8 @@ def check(ctx, case, preempt=None):
         ctx.finding('caller-without-result', sub, f'{sorted(results)} of {len(case["callers"])}')
         return
     disturbed = world.dropped is not None or case.get('local_disconnect') is not None
-    slow_peer = sum(it.get('dt', 0) for it in case['plan'] if it['do'] == 'sleep') >= 9.0     # answers may come later than the 10 s time-out
+    # answers may come later than the 10 s time-out (a reply in two pieces takes 1.6 s)
+    slow_peer = sum(it.get('dt', 0) for it in case['plan'] if it['do'] == 'sleep') + 1.6 * sum(1 for it in case['plan'] if it['do'] == 'reply-split') >= 9.0
     seen_nonces = {}
     took_stray = False
     inflight = 0
